@@ -188,6 +188,7 @@ DIMS = {
     "nloc": ["1", "2", "3", "4+"],
     "role": ["default", "other", "inherits", "inherited_from"],
     "ns": ["none", "1", "2+"],
+    "ns_name": ["none", "identifier", "dashed"],   # configured name of the unit's namespace (`user-profile` is not an identifier)
     "depth": ["0", "1", "2", "3"],
     "kinds": ["L", "O", "R", "D", "V", "P", "B", "C"],
     "defaulting": ["none", "key", "whole_group"],
@@ -203,6 +204,8 @@ DIMS = {
 def infeasible(A, a, B, b):
     v = {A: a, B: b}
     g = v.get
+    if "ns" in v and "ns_name" in v and (g("ns") == "none") != (g("ns_name") == "none"):
+        return "a namespace name belongs to a project with namespaces"
     if g("nloc") == "1" and (g("role") not in (None, "default") or g("dup") in ("across_other_locales", "across_default")
                               or g("defaulting") in ("key", "whole_group") or g("kinds") == "D"):
         return "a project with one locale has only its default locale: nothing defaults, nothing is shared across locales"
@@ -240,6 +243,7 @@ def unit_tags(proj, ns, loc, res):
     li = proj.locales.index(loc)
     t = {"nloc": {str(len(proj.locales)) if len(proj.locales) < 4 else "4+"},
          "ns": {"none" if not proj.namespaces else "1" if len(proj.namespaces) == 1 else "2+"}}
+    t["ns_name"] = {"none" if ns is None else "dashed" if "-" in ns else "identifier"}
     if li == 0:
         t["role"] = {"default"}
     else:
@@ -334,6 +338,8 @@ def params_for(rng, pair):
     role_idx = None
     if "nloc" in v:
         P["nloc"] = {"1": 1, "2": 2, "3": 3, "4+": rng.choice([4, 5])}[v["nloc"]]
+    if v.get("ns_name") in ("identifier", "dashed"):
+        P["nns"] = rng.choice([2, 3, 4])
     if "ns" in v:
         P["nns"] = {"none": 0, "1": 1, "2+": rng.choice([2, 3])}[v["ns"]]
     if "depth" in v:
